@@ -1,114 +1,226 @@
 ------------------------------ MODULE Semaphore ------------------------------
-(* DRAFT (round 0).  Literal model of src/sync/semphore.rs over the SyncBlocker hand-shake.
-   park() is the AbsBlocker: Ok consumes the token; for a timed wait Timeout may be
-   returned at any moment (time is an adversary) and a token that raced in is discarded. *)
+(* Literal model of src/sync/semphore.rs (wait / wait_timeout / try_wait / post) over the
+   SyncBlocker hand-shake (src/sync/blocking.rs).  pc[a] = name of the verification point the
+   actor is stopped at (the operation it performs next); labels without a dot are internal.
+
+   park() is the AbsBlocker contract (l1/Park.tla): a binary token; ParkEnter consumes a token
+   that is already there, otherwise the actor really suspends ("parked"); it is resumed by the
+   token (WakeByToken), by its timer (Tick: virtual time jumps to the earliest pending deadline,
+   exactly what the replay driver does) or by a cancel.  A token that races with a Timeout /
+   Canceled result is discarded by the post-resume check_park, which is why the code keeps the
+   separate `unparked` flag.
+
+   Prog[a] \in Seq({"wait","twait","try","post"}); Dur[a] = duration of a's timed waits.   *)
 EXTENDS Integers, FiniteSets, Sequences, TLC
-CONSTANTS Actors, Prog,      \* Prog[a] \in {"wait", "wait_timeout", "try_wait", "post"}
-          InitVal,
+
+CONSTANTS Actors, Victims, Prog, Dur, InitVal,
           TimeoutPath        \* "as_written" | "never_post" | "always_post"   (mutants)
-VARIABLES cnt, toWake, token, unparked, release, pc, w, retTo, result
-vars == <<cnt, toWake, token, unparked, release, pc, w, retTo, result>>
-Waiters == {a \in Actors : Prog[a] \in {"wait", "wait_timeout"}}
+
+VARIABLES cnt, toWake,                      \* the semaphore; toWake is the SegQueue (FIFO)
+          token, unparked, release,         \* per blocker = <<actor, op index>>
+          pc, ip, w, retTo, r,              \* r[a]: value read by try_wait's load / failed CAS
+          cancelled, parked, res, deadline, now, timerHost,
+          okCnt, postCnt                    \* ghost: successful waits, completed posts
+
+vars == <<cnt, toWake, token, unparked, release, pc, ip, w, retTo, r, cancelled, parked, res,
+          deadline, now, timerHost, okCnt, postCnt>>
+
+MaxOps == 3
+Blockers == Actors \X (1..MaxOps)
+Me(a) == <<a, ip[a]>>
+NoB == <<"none", 0>>
+Op(a) == Prog[a][ip[a]]
+FirstPc(op) == IF op = "post" THEN "sem.post.inc" ELSE "sem.try.load"
+StartPc(a) == IF Len(Prog[a]) = 0 THEN "done" ELSE FirstPc(Prog[a][1])
+
 Init ==
   /\ cnt = InitVal /\ toWake = <<>>
-  /\ token = [a \in Actors |-> FALSE] /\ unparked = [a \in Actors |-> FALSE]
-  /\ release = [a \in Actors |-> FALSE]
-  /\ pc = [a \in Actors |-> IF Prog[a] = "post" THEN "post.inc" ELSE "sem.try"]
-  /\ w = [a \in Actors |-> "none"]
-  /\ retTo = [a \in Actors |-> "done"]
-  /\ result = [a \in Actors |-> "none"]        \* "ok" | "fail" | "posted"
+  /\ token = [b \in Blockers |-> FALSE] /\ unparked = [b \in Blockers |-> FALSE]
+  /\ release = [b \in Blockers |-> FALSE]
+  /\ ip = [a \in Actors |-> 1] /\ pc = [a \in Actors |-> StartPc(a)]
+  /\ w = [a \in Actors |-> NoB] /\ retTo = [a \in Actors |-> "next"] /\ r = [a \in Actors |-> 0]
+  /\ cancelled = [a \in Actors |-> FALSE] /\ parked = [a \in Actors |-> FALSE]
+  /\ res = [a \in Actors |-> "none"] /\ deadline = [a \in Actors |-> 0] /\ now = 0
+  /\ timerHost = "none"     \* the coroutine the timer thread is currently running, if any
+  /\ okCnt = 0 /\ postCnt = 0
+
 Goto(a, l) == pc' = [pc EXCEPT ![a] = l]
-Finish(a, r) == Goto(a, "done") /\ result' = [result EXCEPT ![a] = r]
 UNCH_B == UNCHANGED <<token, unparked, release>>
+UNCH_S == UNCHANGED <<cnt, toWake>>
+UNCH_T == UNCHANGED <<deadline, now, timerHost>>
+LeaveTimer(a) == timerHost' = IF timerHost = a THEN "none" ELSE timerHost
+UNCH_G == UNCHANGED <<okCnt, postCnt>>
 
-Try(a) ==
-  /\ pc[a] = "sem.try"
-  /\ IF cnt > 0 THEN cnt' = cnt - 1 /\ Finish(a, "ok")
-     ELSE /\ UNCHANGED cnt
-          /\ IF Prog[a] = "try_wait" THEN Finish(a, "fail") ELSE Goto(a, "sem.push") /\ UNCHANGED result
-  /\ UNCHANGED <<toWake, w, retTo>> /\ UNCH_B
-Push(a) ==
-  /\ pc[a] = "sem.push" /\ toWake' = Append(toWake, a) /\ Goto(a, "sem.dec")
-  /\ UNCHANGED <<cnt, w, retTo, result>> /\ UNCH_B
-Dec(a) ==
-  /\ pc[a] = "sem.dec" /\ cnt' = cnt - 1
-  /\ IF cnt > 0 THEN Goto(a, "wake.pop") /\ retTo' = [retTo EXCEPT ![a] = "sem.park"]
-                ELSE Goto(a, "sem.park") /\ UNCHANGED retTo
-  /\ UNCHANGED <<toWake, w, result>> /\ UNCH_B
-ParkOk(a) ==
-  /\ pc[a] = "sem.park" /\ token[a] /\ token' = [token EXCEPT ![a] = FALSE] /\ Finish(a, "ok")
-  /\ UNCHANGED <<cnt, toWake, unparked, release, w, retTo>>
-ParkTimeout(a) ==
-  /\ pc[a] = "sem.park" /\ Prog[a] = "wait_timeout"
-  /\ token' = [token EXCEPT ![a] = FALSE]
-  /\ Goto(a, CASE TimeoutPath = "as_written"  -> "sem.t_isunparked"
-               [] TimeoutPath = "never_post"  -> "fail"
-               [] TimeoutPath = "always_post" -> "post.inc")
-  /\ retTo' = [retTo EXCEPT ![a] = "fail"]
-  /\ UNCHANGED <<cnt, toWake, unparked, release, w, result>>
-TIsUnparked(a) ==
-  /\ pc[a] = "sem.t_isunparked"
-  /\ Goto(a, IF unparked[a] THEN "post.inc" ELSE "sem.t_setrel")
-  /\ UNCHANGED <<cnt, toWake, w, retTo, result>> /\ UNCH_B
-TSetRel(a) ==
-  /\ pc[a] = "sem.t_setrel" /\ release' = [release EXCEPT ![a] = TRUE] /\ Goto(a, "sem.t_recheck")
-  /\ UNCHANGED <<cnt, toWake, token, unparked, w, retTo, result>>
-TRecheck(a) ==
-  /\ pc[a] = "sem.t_recheck" /\ Goto(a, IF unparked[a] THEN "sem.t_takerel" ELSE "fail")
-  /\ UNCHANGED <<cnt, toWake, w, retTo, result>> /\ UNCH_B
-TTakeRel(a) ==
-  /\ pc[a] = "sem.t_takerel" /\ release' = [release EXCEPT ![a] = FALSE]
-  /\ Goto(a, IF release[a] THEN "post.inc" ELSE "fail")
-  /\ UNCHANGED <<cnt, toWake, token, unparked, w, retTo, result>>
-Fail(a) == /\ pc[a] = "fail" /\ Finish(a, "fail")
-           /\ UNCHANGED <<cnt, toWake, w, retTo>> /\ UNCH_B
+\* try_wait(): load, then CAS loop while the value read is positive.  wait() starts with it.
+TryLoad(a) ==
+  /\ pc[a] = "sem.try.load"
+  /\ r' = [r EXCEPT ![a] = cnt]
+  /\ IF cnt > 0 THEN Goto(a, "sem.try.cas")
+     ELSE Goto(a, IF Op(a) = "try" THEN "next" ELSE "sem.wait.push")
+  /\ retTo' = [retTo EXCEPT ![a] = "next"]
+  /\ UNCHANGED <<ip, w, cancelled, parked, res>> /\ UNCH_B /\ UNCH_S /\ UNCH_T /\ UNCH_G
+TryCas(a) ==
+  /\ pc[a] = "sem.try.cas"
+  /\ IF cnt = r[a]
+       THEN /\ cnt' = cnt - 1 /\ okCnt' = okCnt + 1 /\ Goto(a, "next") /\ UNCHANGED r
+       ELSE /\ r' = [r EXCEPT ![a] = cnt] /\ UNCHANGED <<cnt, okCnt>>
+            /\ IF cnt > 0 THEN Goto(a, "sem.try.cas")
+               ELSE Goto(a, IF Op(a) = "try" THEN "next" ELSE "sem.wait.push")
+  /\ UNCHANGED <<toWake, ip, w, retTo, cancelled, parked, res, postCnt>> /\ UNCH_B /\ UNCH_T
+
+WaitPush(a) ==
+  /\ pc[a] = "sem.wait.push"
+  /\ toWake' = Append(toWake, Me(a)) /\ Goto(a, "sem.wait.dec")
+  /\ UNCHANGED <<cnt, ip, w, retTo, r, cancelled, parked, res>> /\ UNCH_B /\ UNCH_T /\ UNCH_G
+WaitDec(a) ==
+  /\ pc[a] = "sem.wait.dec"
+  /\ cnt' = cnt - 1
+  /\ IF cnt > 0 THEN Goto(a, "sem.pop") /\ retTo' = [retTo EXCEPT ![a] = "sb.park"]
+                ELSE Goto(a, "sb.park") /\ UNCHANGED retTo
+  /\ UNCHANGED <<toWake, ip, w, r, cancelled, parked, res>> /\ UNCH_B /\ UNCH_T /\ UNCH_G
+
 PostInc(a) ==
-  /\ pc[a] = "post.inc" /\ cnt' = cnt + 1
-  /\ Goto(a, IF cnt < 0 THEN "wake.pop" ELSE retTo[a])
-  /\ UNCHANGED <<toWake, w, retTo, result>> /\ UNCH_B
-WakePop(a) ==
-  /\ pc[a] = "wake.pop" /\ toWake # <<>>
-  /\ w' = [w EXCEPT ![a] = Head(toWake)] /\ toWake' = Tail(toWake) /\ Goto(a, "wake.unpark")
-  /\ UNCHANGED <<cnt, retTo, result>> /\ UNCH_B
-WakeUnpark(a) ==
-  /\ pc[a] = "wake.unpark" /\ token' = [token EXCEPT ![w[a]] = TRUE] /\ Goto(a, "wake.set_unparked")
-  /\ UNCHANGED <<cnt, toWake, unparked, release, w, retTo, result>>
-WakeSetUnparked(a) ==
-  /\ pc[a] = "wake.set_unparked" /\ unparked' = [unparked EXCEPT ![w[a]] = TRUE] /\ Goto(a, "wake.takerel")
-  /\ UNCHANGED <<cnt, toWake, token, release, w, retTo, result>>
-WakeTakeRel(a) ==
-  /\ pc[a] = "wake.takerel" /\ release' = [release EXCEPT ![w[a]] = FALSE]
-  /\ Goto(a, IF release[w[a]] THEN "post.inc" ELSE retTo[a])
-  /\ UNCHANGED <<cnt, toWake, token, unparked, w, retTo, result>>
-PostDone(a) ==       \* a pure post() returns
-  /\ pc[a] = "done" /\ Prog[a] = "post" /\ result[a] = "none"
-  /\ result' = [result EXCEPT ![a] = "posted"]
-  /\ UNCHANGED <<cnt, toWake, pc, w, retTo>> /\ UNCH_B
-AllOver == \A a \in Actors : pc[a] = "done" /\ result[a] # "none"
-Stutter == AllOver /\ UNCHANGED vars
-\* a plain wait() with no permit in sight blocks for ever by specification, not by accident
-LegitBlocked == /\ \A a \in Actors : \/ (pc[a] = "done" /\ result[a] # "none")
-                                     \/ (pc[a] = "sem.park" /\ Prog[a] = "wait" /\ ~token[a])
-                /\ UNCHANGED vars
-Next == \/ \E a \in Actors : Try(a) \/ Push(a) \/ Dec(a) \/ ParkOk(a) \/ ParkTimeout(a) \/ TIsUnparked(a)
-             \/ TSetRel(a) \/ TRecheck(a) \/ TTakeRel(a) \/ Fail(a) \/ PostInc(a) \/ WakePop(a)
-             \/ WakeUnpark(a) \/ WakeSetUnparked(a) \/ WakeTakeRel(a) \/ PostDone(a)
-        \/ Stutter \/ LegitBlocked
-Spec == Init /\ [][Next]_vars
+  /\ pc[a] = "sem.post.inc"
+  /\ cnt' = cnt + 1
+  /\ IF cnt < 0 THEN Goto(a, "sem.pop") ELSE Goto(a, retTo[a])
+  /\ postCnt' = IF retTo[a] = "next" /\ Op(a) = "post" /\ w[a] = NoB THEN postCnt + 1 ELSE postCnt
+  /\ UNCHANGED <<toWake, ip, w, retTo, r, cancelled, parked, res, okCnt>> /\ UNCH_B /\ UNCH_T
 
-Posts     == Cardinality({a \in Actors : Prog[a] = "post" /\ pc[a] = "done"})
-Successes == Cardinality({a \in Actors : result[a] = "ok"})
-Value     == IF cnt > 0 THEN cnt ELSE 0
-NeverOverdrawn == Successes <= InitVal + Cardinality({a \in Actors : Prog[a] = "post" /\ pc[a] # "post.inc"})
-\* conservation, stated at every quiescent state (nobody in the middle of a call; waiters
-\* may still be parked): the permits that logically exist are exactly what get_value() shows,
-\* and nobody sleeps while one exists
-Quiescent == \A a \in Actors : (pc[a] = "done" /\ result[a] # "none") \/ (pc[a] = "sem.park" /\ ~token[a])
-Parked    == {a \in Actors : pc[a] = "sem.park"}
-QuiescentValue == Quiescent => /\ Value = InitVal + Posts - Successes
-                               /\ (Parked # {} => Value = 0)
-PopNeverEmpty  == \A a \in Actors : pc[a] = "wake.pop" => toWake # <<>>
-\* whenever permits suffice every waiter proceeds: nobody is left parked with a positive value
-PermitsSuffice == ~(\E a \in Waiters : pc[a] = "sem.park" /\ ~token[a]) \/ cnt <= 0
-                  \/ \E a \in Actors : pc[a] \notin {"done", "sem.park"}
+Pop(a) ==
+  /\ pc[a] = "sem.pop"
+  /\ toWake # <<>>                                  \* .expect("got null blocker!")
+  /\ w' = [w EXCEPT ![a] = Head(toWake)] /\ toWake' = Tail(toWake) /\ Goto(a, "sb.unpark")
+  /\ UNCHANGED <<cnt, ip, retTo, r, cancelled, parked, res>> /\ UNCH_B /\ UNCH_T /\ UNCH_G
+\* blocker.unpark(): a target that is really suspended on this blocker is taken out of its slot and
+\* resumed at once (it will return Ok); otherwise the token is left for its next park
+WakeUnpark(a) ==
+  /\ pc[a] = "sb.unpark"
+  /\ LET b == w[a]  t == b[1] IN
+       IF pc[t] = "parked" /\ parked[t] /\ Me(t) = b
+         THEN /\ parked' = [parked EXCEPT ![t] = FALSE] /\ res' = [res EXCEPT ![t] = "Ok"]
+              /\ pc' = [pc EXCEPT ![a] = "sb.set_unparked", ![t] = "sb.park.ret"]
+              /\ UNCHANGED token
+         ELSE /\ token' = [token EXCEPT ![b] = TRUE] /\ Goto(a, "sb.set_unparked")
+              /\ UNCHANGED <<parked, res>>
+  /\ UNCHANGED <<unparked, release, ip, w, retTo, r, cancelled>> /\ UNCH_S /\ UNCH_T /\ UNCH_G
+WakeSetUnparked(a) ==
+  /\ pc[a] = "sb.set_unparked"
+  /\ unparked' = [unparked EXCEPT ![w[a]] = TRUE] /\ Goto(a, "sb.take_release")
+  /\ UNCHANGED <<token, release, ip, w, retTo, r, cancelled, parked, res>> /\ UNCH_S /\ UNCH_T /\ UNCH_G
+\* take_release(): by the waker on w[a], or by the giving-up waiter on its own blocker
+\* (retTo = "g_recheck")
+TakeRelease(a) ==
+  /\ pc[a] = "sb.take_release"
+  /\ LET mine == retTo[a] = "g_recheck"
+         b == IF mine THEN Me(a) ELSE w[a] IN
+       /\ release' = [release EXCEPT ![b] = FALSE]
+       /\ IF release[b]
+            THEN /\ Goto(a, "sem.post.inc")
+                 /\ retTo' = IF mine THEN [retTo EXCEPT ![a] = "giveup"] ELSE retTo
+            ELSE /\ Goto(a, IF mine THEN "giveup" ELSE retTo[a]) /\ UNCHANGED retTo
+  /\ UNCHANGED <<token, unparked, ip, w, r, cancelled, parked, res>> /\ UNCH_S /\ UNCH_T /\ UNCH_G
+
+ParkEnter(a) ==
+  /\ pc[a] = "sb.park"
+  /\ IF token[Me(a)]
+       THEN /\ token' = [token EXCEPT ![Me(a)] = FALSE] /\ res' = [res EXCEPT ![a] = "Ok"]
+            /\ Goto(a, "sb.park.ret") /\ UNCHANGED <<parked, deadline, timerHost>>
+       ELSE IF cancelled[a]
+         THEN /\ res' = [res EXCEPT ![a] = "Canceled"] /\ Goto(a, "sb.park.ret")
+              /\ UNCHANGED <<token, parked, deadline, timerHost>>
+         ELSE /\ parked' = [parked EXCEPT ![a] = TRUE] /\ Goto(a, "parked")
+              /\ deadline' = [deadline EXCEPT ![a] = IF Op(a) = "twait" THEN now + Dur[a] ELSE 0]
+              /\ LeaveTimer(a)       \* a really suspends: the timer thread (if it hosted a) is free again
+              /\ UNCHANGED <<token, res>>
+  /\ UNCHANGED <<unparked, release, ip, w, retTo, r, cancelled, now>> /\ UNCH_S /\ UNCH_G
+ParkReturn(a) ==
+  /\ pc[a] = "sb.park.ret"
+  /\ IF res[a] = "Ok"
+       THEN /\ Goto(a, "next") /\ okCnt' = okCnt + 1 /\ UNCHANGED <<token, retTo>>
+       ELSE /\ token' = [token EXCEPT ![Me(a)] = FALSE]    \* post-resume check_park discards it
+            /\ UNCHANGED okCnt
+            /\ retTo' = [retTo EXCEPT ![a] = "giveup"]
+            /\ Goto(a, CASE TimeoutPath = "as_written"  -> "sb.is_unparked"
+                         [] TimeoutPath = "never_post"  -> "giveup"
+                         [] TimeoutPath = "always_post" -> "sem.post.inc")
+  /\ UNCHANGED <<unparked, release, ip, w, r, cancelled, parked, res, postCnt>> /\ UNCH_S /\ UNCH_T
+
+\* giving up (timeout or cancel): is_unparked, set_release, is_unparked again, take_release
+IsUnparked(a) ==
+  /\ pc[a] = "sb.is_unparked"
+  /\ IF retTo[a] # "g_second"
+       THEN IF unparked[Me(a)] THEN Goto(a, "sem.post.inc") /\ retTo' = [retTo EXCEPT ![a] = "giveup"]
+                               ELSE Goto(a, "sb.set_release") /\ UNCHANGED retTo
+       ELSE IF unparked[Me(a)] THEN Goto(a, "sb.take_release") /\ retTo' = [retTo EXCEPT ![a] = "g_recheck"]
+                               ELSE Goto(a, "giveup") /\ UNCHANGED retTo
+  /\ UNCHANGED <<ip, w, r, cancelled, parked, res>> /\ UNCH_B /\ UNCH_S /\ UNCH_T /\ UNCH_G
+SetRelease(a) ==
+  /\ pc[a] = "sb.set_release"
+  /\ release' = [release EXCEPT ![Me(a)] = TRUE] /\ Goto(a, "sb.is_unparked")
+  /\ retTo' = [retTo EXCEPT ![a] = "g_second"]
+  /\ UNCHANGED <<token, unparked, ip, w, r, cancelled, parked, res>> /\ UNCH_S /\ UNCH_T /\ UNCH_G
+\* the wait returns false (timeout) or the coroutine unwinds (cancel)
+GiveUp(a) ==
+  /\ pc[a] = "giveup"
+  /\ Goto(a, IF res[a] = "Canceled" THEN "dead" ELSE "next")
+  /\ retTo' = [retTo EXCEPT ![a] = "next"]
+  /\ IF res[a] = "Canceled" THEN LeaveTimer(a) ELSE UNCHANGED timerHost
+  /\ UNCHANGED <<ip, w, r, cancelled, parked, res, deadline, now>> /\ UNCH_B /\ UNCH_S /\ UNCH_G
+
+NextOp(a) ==
+  /\ pc[a] = "next"
+  /\ IF ip[a] < Len(Prog[a])
+       THEN ip' = [ip EXCEPT ![a] = ip[a] + 1] /\ Goto(a, FirstPc(Prog[a][ip[a] + 1])) /\ UNCHANGED timerHost
+       ELSE UNCHANGED ip /\ Goto(a, "done") /\ LeaveTimer(a)
+  /\ res' = [res EXCEPT ![a] = "none"] /\ retTo' = [retTo EXCEPT ![a] = "next"]
+  /\ w' = [w EXCEPT ![a] = NoB]
+  /\ UNCHANGED <<r, cancelled, parked, deadline, now>> /\ UNCH_B /\ UNCH_S /\ UNCH_G
+
+\* environment ---------------------------------------------------------------------------
+TimedParked == {a \in Actors : pc[a] = "parked" /\ parked[a] /\ deadline[a] > 0}
+\* virtual time jumps to the earliest pending deadline; the waiter due then times out and is
+\* resumed *on the timer thread*, which serves no other timer until that coroutine suspends or ends
+Tick ==
+  /\ TimedParked # {} /\ timerHost = "none"
+  /\ LET t == CHOOSE t \in {deadline[a] : a \in TimedParked} : \A a \in TimedParked : t <= deadline[a]
+         due == {a \in TimedParked : deadline[a] <= t} IN
+       /\ now' = t
+       /\ timerHost' = CHOOSE a \in due : TRUE
+       /\ parked' = [a \in Actors |-> IF a \in due THEN FALSE ELSE parked[a]]
+       /\ res' = [a \in Actors |-> IF a \in due THEN "Timeout" ELSE res[a]]
+       /\ pc' = [a \in Actors |-> IF a \in due THEN "sb.park.ret" ELSE pc[a]]
+  /\ UNCHANGED <<ip, w, retTo, r, cancelled, deadline>> /\ UNCH_B /\ UNCH_S /\ UNCH_G
+Cancel(a) ==
+  /\ a \in Victims /\ ~cancelled[a] /\ pc[a] \notin {"done", "dead"}
+  /\ cancelled' = [cancelled EXCEPT ![a] = TRUE]
+  /\ IF pc[a] = "parked" /\ ~token[Me(a)]
+       THEN /\ parked' = [parked EXCEPT ![a] = FALSE] /\ res' = [res EXCEPT ![a] = "Canceled"]
+            /\ pc' = [pc EXCEPT ![a] = "sb.park.ret"]
+       ELSE UNCHANGED <<parked, res, pc>>
+  /\ UNCHANGED <<ip, w, retTo, r>> /\ UNCH_B /\ UNCH_S /\ UNCH_T /\ UNCH_G
+
+Step(a) ==
+  \/ TryLoad(a) \/ TryCas(a) \/ WaitPush(a) \/ WaitDec(a) \/ PostInc(a) \/ Pop(a) \/ WakeUnpark(a)
+  \/ WakeSetUnparked(a) \/ TakeRelease(a) \/ ParkEnter(a) \/ ParkReturn(a) \/ IsUnparked(a) \/ SetRelease(a)
+Internal(a) == NextOp(a) \/ GiveUp(a)
+Obs(a) == IF pc[a] = "sb.park.ret"
+            THEN (CASE res[a] = "Ok" -> 0 [] res[a] = "Timeout" -> 1 [] OTHER -> 2) ELSE -1
+
+Finished(a) == pc[a] \in {"done", "dead"}
+\* a plain wait() with no permit in sight blocks for ever by specification, not by accident
+LegitParked(a) == pc[a] = "parked" /\ ~token[Me(a)] /\ deadline[a] = 0 /\ a \notin Victims
+Quiescent == \A a \in Actors : Finished(a) \/ (pc[a] = "parked" /\ ~token[Me(a)])
+Terminal == (\A a \in Actors : Finished(a) \/ LegitParked(a)) /\ UNCHANGED vars
+
+Next == (\E a \in Actors : Step(a) \/ Internal(a) \/ Cancel(a)) \/ Tick \/ Terminal
+Spec == Init /\ [][Next]_vars
+-----------------------------------------------------------------------------
+Value == IF cnt > 0 THEN cnt ELSE 0
+NeverOverdrawn == okCnt <= InitVal + postCnt
+\* conservation at every quiescent state (nobody in the middle of a call; waiters may still be
+\* parked): the permits that logically exist are exactly what get_value() shows, and nobody
+\* sleeps while one exists
+QuiescentValue == Quiescent => /\ Value = InitVal + postCnt - okCnt
+                               /\ ((\E a \in Actors : pc[a] = "parked") => Value = 0)
+PopNeverEmpty == \A a \in Actors : pc[a] = "sem.pop" => toWake # <<>>
 =============================================================================
